@@ -294,7 +294,7 @@ PLANS = {
         correspondence='bytes written by the rustc-compiled generated functions vs Ructe.renderL (specification semantics under the mini-Rust Sem) of the model\'s parse; syntax tree and body code of structured templates vs the model',
         rule='typed template programs: 1..5 templates per program in up to 3 module levels, acyclic calls with 0..3 Content blocks (empty / comment-only / nested directives and calls), if / else-if chains / if-let / for over slices, tuples (& patterns), struct destructuring, ranges, enumerate / match with 2..3 arms, every relational operator, negation, &&, ||; 3 argument sets per program; every rendering re-run under fault sinks (failure at every byte offset for renderings up to 48 bytes, sampled beyond; chunk sizes 1 / 3 / 7 / unlimited; Interrupted every 2nd / 5th call); non-trivial = distinct renderings + distinct accepted syntax trees',
         assumptions=['user fragments are pure and infallible', 'the mini-Rust evaluator (RucteModel/MiniRust.lean) agrees with rustc on the generated fragment language (validated by this run)'],
-        level_text='Proved for every Sem (meaning of user fragments), program, fuel, environment and sink: exec_realises (the emitted statements realise the specification rendering), render_if_taken / render_if_not_taken / render_else_block / render_else_if / else_if_flattening / render_for / render_iter_cons / render_match / render_seq / render_fuel_mono. The parser side (which source becomes which tree): for every well-formed source tree of the documented body syntax the parser returns the intended tree with block bodies in full, and after a block's closing brace the following nodes are parsed as themselves unless an else really follows (C15Tree.block_complete, C15Tree.no_swallow_after_block; directive fragments are plain names there, general fragments by C05.expression_complete); beyond that it is validated by the documented-tree oracle. Tie: rustc-compiled code vs the Lean rendering on generated typed programs.',
+        level_text='Proved for every Sem (meaning of user fragments), program, fuel, environment and sink: exec_realises (the emitted statements realise the specification rendering), render_if_taken / render_if_not_taken / render_else_block / render_else_if / else_if_flattening / render_for / render_iter_cons / render_match / render_seq / render_fuel_mono. The parser side (which source becomes which tree): for every well-formed source tree of the documented body syntax the parser returns the intended tree with block bodies in full, and after the closing brace of a block the following nodes are parsed as themselves unless an else really follows (C15Tree.block_complete, C15Tree.no_swallow_after_block; directive fragments are plain names there, general fragments by C05.expression_complete); beyond that it is validated by the documented-tree oracle. Tie: rustc-compiled code vs the Lean rendering on generated typed programs.',
         level_note='Trusted: Lean kernel; hand-written model; print : IR -> text is validated by rustc runs, not proved; rustc.',
         design_ref='DESIGN.md §6 C03',
     ),
